@@ -55,7 +55,7 @@ func H_C15_symbolic() {
 func H_C15_windows() {
 	ci := vChoose(len(corpusC15))
 	if vTier() == 0 {
-		vAssume(ci%10 == vSeed()%10)
+		vAssume(ci%16 == vSeed()%16)
 	}
 	s := corpusC15[ci]
 	if len(s) > 14 && s[:3] == "(((" || len(s) > 14 && s[:5] == "not (" {
